@@ -16,6 +16,9 @@ use std::sync::{Arc, Mutex};
 struct GroupSink<S> {
   groups: Arc<Mutex<Vec<(V, Probe)>>>,
   outer: Probe,
+  /// also attach, ahead of the recorded probe, a subscriber that leaves again
+  /// right away (it stays in the group's list until the next emission)
+  leaver_first: bool,
   _s: std::marker::PhantomData<S>,
 }
 
@@ -26,6 +29,9 @@ macro_rules! sink_impl {
         let p = Probe::new();
         self.groups.lock().unwrap().push((g.key.clone(), p.clone()));
         self.outer.next(g.key.clone());
+        if self.leaver_first {
+          g.clone().actual_subscribe(Probe::new()).unsubscribe();
+        }
         g.actual_subscribe(p);
       }
       fn error(self, e: E) {
@@ -90,8 +96,22 @@ macro_rules! group_job {
         let mut src = <$subj>::default();
         let groups: Arc<Mutex<Vec<(V, Probe)>>> = Arc::new(Mutex::new(vec![]));
         let outer = Probe::new();
-        let sink: GroupSink<$subj> =
-          GroupSink { groups: groups.clone(), outer: outer.clone(), _s: Default::default() };
+        // other subscribers around: one on the source that has left again before
+        // group_by subscribes, and/or one per group that leaves at once
+        let others = ch.choose(4);
+        ch.label(|| {
+          ["group_by is the only subscriber", "an earlier subscriber of the source has left", "every group has an earlier subscriber that has left", "both"][others]
+            .to_string()
+        });
+        if others == 1 || others == 3 {
+          src.clone().actual_subscribe(Probe::new()).unsubscribe();
+        }
+        let sink: GroupSink<$subj> = GroupSink {
+          groups: groups.clone(),
+          outer: outer.clone(),
+          leaver_first: others >= 2,
+          _s: Default::default(),
+        };
         let _u = src
           .clone()
           .group_by::<_, _, $subj>(key.make())
@@ -225,9 +245,11 @@ pub fn plan(tier: Tier) -> Plan {
   };
   let mut jobs = vec![];
   for key in KeyFn::ALL {
-    for first in 0..6 {
-      jobs.push(job_local(key, len).root(vec![first]));
-      jobs.push(job_threads(key, len).root(vec![first]));
+    for others in 0..4 {
+      for first in 0..6 {
+        jobs.push(job_local(key, len).root(vec![others, first]));
+        jobs.push(job_threads(key, len).root(vec![others, first]));
+      }
     }
   }
   for key in K::ALL {
